@@ -17,6 +17,9 @@ package netpoll
 //	        <m> accept at most m bytes (0 = EAGAIN), a = accept everything; after the script: a.
 //	        Accepted bytes are really sent on the socketpair (the peer's receive count is checked at the end).
 //	ev    = h: the peer closes (hang-up through the poller transcription)
+//	after = 0 (default): the flusher stops its script after the first call that returned ErrWriteTimeout - generated
+//	        scenarios steer around known findings D9/D9b (known_findings.jsonl), whose pattern is "a Flush/Write issued after an
+//	        earlier ErrWriteTimeout"; after=1 (corpus probes only) goes on.
 //	f2    = number of calls of the second flusher: `flusher2` calls Flush() while `flusher` is inside flush() (after its
 //	        first sendmsg of the call); its call is ONE scheduler step (model action flush2).
 //
@@ -47,6 +50,7 @@ type vsFlScn struct {
 	events  []string
 	closers int
 	f2      int
+	after   bool
 }
 
 func vsParseFlScn(spec string) (vsFlScn, error) {
@@ -97,6 +101,8 @@ func vsParseFlScn(spec string) (vsFlScn, error) {
 			sc.closers, _ = strconv.Atoi(v)
 		case "f2":
 			sc.f2, _ = strconv.Atoi(v)
+		case "after":
+			sc.after = v == "1"
 		default:
 			return sc, fmt.Errorf("unknown scenario key %q", k)
 		}
@@ -216,7 +222,7 @@ func vsB(b bool) int {
 	return 0
 }
 
-func (r *vsFlRun) flushCall(i int, cl vsCall) {
+func (r *vsFlRun) flushCall(i int, cl vsCall) (res string) {
 	c, s := r.c, r.s
 	switch cl.mode {
 	case 'u':
@@ -247,8 +253,10 @@ func (r *vsFlRun) flushCall(i int, cl vsCall) {
 		_, err = c.WriteBinary(make([]byte, cl.n))
 	}
 	r.f1Sent = false
-	s.ghost("ret %d res=%s out=%d pend=%d tick=%d slot=%d rw=%d", i, vsErrClass(err), r.outLen(), c.outputBuffer.MallocLen(),
+	res = vsErrClass(err)
+	s.ghost("ret %d res=%s out=%d pend=%d tick=%d slot=%d rw=%d", i, res, r.outLen(), c.outputBuffer.MallocLen(),
 		vsTimerTick(c.writeTimer), len(c.writeTrigger), vsB(r.fp.interestW))
+	return res
 }
 
 func (r *vsFlRun) snapshot() string {
@@ -275,7 +283,10 @@ func vsFlushExec(sc vsFlScn, ch vsChooser) (string, *vsSched) {
 	s.spawn("flusher", "flusher", false, nil, func() {
 		for i, cl := range sc.calls {
 			s.point("flusher.call")
-			r.flushCall(i, cl)
+			if r.flushCall(i, cl) == "wtimeout" && !sc.after {
+				s.ghost("stop-after-timeout")
+				break
+			}
 		}
 	})
 	if sc.f2 > 0 {
@@ -295,7 +306,7 @@ func vsFlushExec(sc vsFlScn, ch vsChooser) (string, *vsSched) {
 	}
 	guardW := func() bool { return e.fp.registered && e.fp.interestW && !e.fp.deleted && e.fp.frees == 0 }
 	s.spawn("wpoller", "wpoller", true, guardW, func() {
-		for i := 0; i < 16; i++ {
+		for i := 0; i < 64; i++ {
 			// the event was fetched while the descriptor had EPOLLOUT interest (the guard held when this step was chosen)
 			hup := r.handleWrite(e.fp.op)
 			r.onhups()
